@@ -830,6 +830,8 @@ def complete_both(ctx: Ctx):
     sn = cm.self_name
     tparam = [a.arg for a in cm.params if a.arg != sn][0]
     PD, PT = sf.pending_deps, sf.pending_dependents
+    if PD is None or PT is None:
+        raise AnalysisError('the pending-dependencies / pending-dependents relations of the scheduler state were not identified')
     loops = [lp for lp in walk_local(cm.node) if isinstance(lp, ast.For) and isinstance(lp.target, ast.Name)
              and same_expr(strip_order_preserving(lp.iter), ast.parse(f'{sn}.{PT}[{tparam}]', mode='eval').body)]
     if not loops:
